@@ -57,6 +57,21 @@ Inductive outcome :=
 | OKeep                      (* leave the field as the JSON pre-bind (or the zero value) left it *)
 | OTexts (ts : list bs) (from_default : bool).
 
+Fixpoint split_on (sep : byte) (s : bs) (cur : bs) : list bs :=
+  match s with
+  | [] => [rev cur]
+  | c :: r => if Byte.eqb c sep then rev cur :: split_on sep r [] else split_on sep r (c :: cur)
+  end.
+Definition fields_of (sep : byte) (s : bs) : list bs := match s with [] => [] | _ => split_on sep s [] end.
+
+Definition RS : byte := x1e.   (* between records *)
+Definition US : byte := x1f.   (* between the parts of a record *)
+Definition GS : byte := x1d.   (* inside a part *)
+
+(* the texts a declared default stands for: a scalar field takes the text itself; a slice field's default is a
+   JSON array, carried here as its elements (the harness writes `default:"[e1,e2]"` for e1 GS e2) *)
+Definition default_texts (slice : bool) (dv : bs) : list bs := if slice then split_on GS dv [] else [dv].
+
 (* loop state: err, found texts, defaultValue *)
 Fixpoint scan (slice : bool) (q : request) (dflt : bs) (tags : list tag)
               (err : bool) (dv : bs) : bool * option (list bs) * bs :=
@@ -90,7 +105,7 @@ Definition decide (f : field) (q : request) : outcome :=
     let texts := match found with Some l => l | None => [] end in
     let empty := if f_slice f then (match texts with [] => true | _ => false end)
                  else (match texts with [[]] | [] => true | _ => false end) in
-    if empty && negb (match dv with [] => true | _ => false end) then OTexts [dv] true
+    if empty && negb (match dv with [] => true | _ => false end) then OTexts (default_texts (f_slice f) dv) true
     else match found with
          | None => OKeep
          | Some l => if f_slice f then OTexts l false
@@ -230,17 +245,6 @@ Fixpoint bind_history (types : nat -> list field) (c : cache) (h : list (nat * r
   end.
 
 (* ---------- decoding of the harness' description ---------- *)
-Fixpoint split_on (sep : byte) (s : bs) (cur : bs) : list bs :=
-  match s with
-  | [] => [rev cur]
-  | c :: r => if Byte.eqb c sep then rev cur :: split_on sep r [] else split_on sep r (c :: cur)
-  end.
-Definition fields_of (sep : byte) (s : bs) : list bs := match s with [] => [] | _ => split_on sep s [] end.
-
-Definition RS : byte := x1e.   (* between records *)
-Definition US : byte := x1f.   (* between the parts of a record *)
-Definition GS : byte := x1d.   (* inside a part *)
-
 Definition kind_of (s : bs) : kind :=
   if bs_eqb s (B "bool") then KBool else if bs_eqb s (B "string") then KString
   else if bs_eqb s (B "int8") then KInt 8 else if bs_eqb s (B "int16") then KInt 16
